@@ -36,7 +36,7 @@ def ga(q=1, t=6, shards_q=4, shards_t=16):
     return dict(engine="gated", shards=dict(quick=shards_q, thorough=shards_t), args=["--quick-n", str(q), "--thorough-n", str(t)])
 
 
-GA = "gated: for every pair (yield point inside a critical window: 16 reached by the processor, 8 by a client; entry points of the store and policy operations included) x (racing operation: clear, remove/update/look-up of the same key, insert/remove of another key, in-place write, tick, wait, insert_if_present on a still-buffered and on a resident key) " \
+GA = "gated: for every pair (yield point inside a critical window: 17 reached by the processor, 8 by a client; entry points of the store and policy operations included) x (racing operation: clear, remove/update/look-up of the same key - for the cleanup points the key the tick finds expired, refreshed with and without TTL -, insert/remove of another key, remove/second insert of the key whose first insert is in flight, in-place write, tick, wait, insert_if_present on a still-buffered and on a resident key) " \
      "the thread is parked at the point on the real code while the racing operation runs to completion (or is seen to wait for the parked thread), then the history is quiesced and judged; quick: all pairs x 2 flavours, thorough: all pairs x 4 flavours x 6 seeds"
 
 
@@ -178,10 +178,10 @@ PLAN = {
     "C12": dict(
         stages=[dict(engine="close", shards=dict(quick=4, thorough=16), args=["--quick-n", "480", "--thorough-n", "8000"]), miri("lifecycle"), tsan("close", n=120, shards=2, extra=["--flavors", "sync"])],
         rule="scenarios x flavours (sync, tokio multi-thread, tokio current-thread, async-std, thread-per-task): close idle / after a history / 2-8 concurrent closers / "
-             "try_* + wait + clear + get_ttl racing the close / drop without close / close with a pending buffer; distinct by scenario description",
+             "try_* + wait + clear + get_ttl racing the close / drop without close / close with a pending buffer / directed: closer parked between its clear() and its stop signal while inserts are admitted (entries resident when close() returns); distinct by scenario description",
         clauses=["no panic, no hang (state-based)", "after a close() returned Ok: insert false, look-ups None, remove/clear/wait/close Ok, no effect on the cache", "both workers exit (guard counters); OS thread count back to baseline (sync); spawned tasks finished (async)",
                  "same when all handles are dropped without close()"],
-        minimum=dict(quick=dict(lc_close_scenarios=480)),
+        minimum=dict(quick=dict(lc_close_scenarios=480, lc_entries_resident_when_close_returned=20)),
         assumptions=[],
     ),
     "C13": dict(
